@@ -77,7 +77,7 @@ func c20Initial() c20Model {
 
 // apply returns false if the update is refused in this state (then nothing changes).
 func (m *c20Model) apply(op string) bool {
-	p := strings.Split(op, ":")
+	p := opSplit(op)
 	switch p[0] {
 	case "board":
 		m.Board = "post-" + p[1] + "\r" + m.Board
@@ -258,7 +258,7 @@ func (s *c20Stores) dump(store string) string {
 }
 
 func (s *c20Stores) apply(op string) error {
-	p := strings.Split(op, ":")
+	p := opSplit(op)
 	switch p[0] {
 	case "board":
 		_, err := s.board.Write([]byte("post-" + p[1] + "\r"))
@@ -493,7 +493,7 @@ func c20Run(w *explore.Worker, c c20Case) (steps int) {
 	return steps
 }
 
-var c20Alphabet = []string{"board:1", "board:2", "newsgrp:C2", "newspost:C1:second", "newspost:C1:" + strings.Repeat("long", 200), "newspost:C1:\ttab\nlf", "newsgrp:<<", "newsdelart:C1", "newsdelitem:C1",
+var c20Alphabet = []string{"board:1", "board:2", "newsgrp:C2", "newspost:C1:second", "newspost:C1:" + strings.Repeat("long", 200), "newspost:C1:\ttab\nlf", "newsgrp:<<", "newspost:C1:Caf%8E", "acctnew:Ren%8Ee", "newsdelart:C1", "newsdelitem:C1",
 	"acctnew:b", "acctmod:a", "acctren:a:c", "acctdel:a", "acctmod:b", "ban:10.0.0.1:temp", "ban:10.0.0.1:perm", "ban:10.0.0.2:perm"}
 
 func c20Histories(depth int) [][]string {
